@@ -132,6 +132,24 @@ def resolve(target, src_root):
     return obj
 
 
+def snapshot(env):
+    """Deep copy of the argument values for old(); tree nodes are identities and stay shared."""
+    try:
+        from ete3 import TreeNode
+    except ImportError:
+        return copy.deepcopy(env)
+    sentinel = object()
+    saved = TreeNode.__dict__.get("__deepcopy__", sentinel)
+    TreeNode.__deepcopy__ = lambda self, memo: self
+    try:
+        return copy.deepcopy(env)
+    finally:
+        if saved is sentinel:
+            del TreeNode.__deepcopy__
+        else:
+            TreeNode.__deepcopy__ = saved
+
+
 class NativeResult:
     def __init__(self, status, detail=None, clause=None):
         self.status = status  # ok | skip (precondition false) | violation
@@ -161,7 +179,7 @@ def check_call(engine, contract, fn, args, universe=None, ns_extra=None, allow_e
                 return NativeResult("skip", clause=r.text)
         except Exception as e:  # ill-formed input for this precondition
             return NativeResult("skip", detail=f"{type(e).__name__}: {e}", clause=r.text)
-    old = copy.deepcopy(env)
+    old = snapshot(env)
     try:
         pos = [env[n] for n in names if n != contract.vararg]
         if contract.vararg:
